@@ -24,7 +24,9 @@ LEVEL = "fault_enumeration"
 STRUCT = bytes([0x0A, 0x12, 0x1A, 0x22, 0x2A, 0x32, 0x4A, 0x52, 0x5A, 0x7A,
                 0x00, 0x01, 0x02, 0x08, 0x7F, 0x80, 0xFF])
 TIME_BUDGET = 5.0
-RSS_BUDGET_KB = 64 * 1024
+RSS_BUDGET_KB = 24 * 1024
+CASE_WALL_LIMIT = 30.0  # parent-side: a single case may never hold a worker longer than this
+AS_LIMIT = 6 * 2**30
 
 
 class CaseTimeout(BaseException):
@@ -146,10 +148,10 @@ def family_e3():
             tr = jwire.mkrow("triple", {"s": ("bnode", "a"), "p": ("bnode", "b"),
                                         "o": ("bnode", "c")})
             yield "huge-table-" + field, jwire.write_delimited([jwire.enc_frame([o, tr])])
-            for eid in (size, 6_000_000, 2**32 - 1):
+            for eid in (size, 6_000_000, 20_000_000, 2**32 - 1):
                 ent = jwire.mkrow("name", {"id": eid, "value": "x"})
                 yield "huge-entry-id", jwire.write_delimited([jwire.enc_frame([orow, ent, tr])])
-    for eid in (9, 4097, 6_000_000, 2**32 - 1):
+    for eid in (9, 4097, 6_000_000, 20_000_000, 2**32 - 1):
         for kind in ("name", "prefix", "datatype"):
             o = jwire.mkrow("options", {**opts, "max_prefix_table_size": 16,
                                         "max_datatype_table_size": 16})
@@ -182,6 +184,9 @@ def family_e3():
 def shard(job) -> dict:
     fam, args, thorough, progress = job
     signal.signal(signal.SIGALRM, _alarm)
+    resource.setrlimit(resource.RLIMIT_AS, (AS_LIMIT, AS_LIMIT))  # protect the machine
+    for _, seed in seeds()[:2]:
+        parse_all(seed, thorough)  # warm-up: lazy imports and caches are not the case's memory
     acc = pool.Acc()
     hist: dict = {}
     worst = 0.0
@@ -248,24 +253,43 @@ def run(ctx) -> None:
     try:
         with ctxm.Pool(pool.WORKERS) as p:
             asyncs = [p.apply_async(shard, (j,)) for j in jobs]
+            pending = dict(enumerate(asyncs))
             t0 = time.time()
-            for j, a in zip(jobs, asyncs):
-                try:
-                    results.append(a.get(timeout=max(30, deadline - (time.time() - t0))))
-                except mp.TimeoutError:
-                    data = b""
-                    if os.path.exists(j[3]):
-                        data = open(j[3], "rb").read()
-                    ctx.violation({"fail": "worker-hang", "family": j[0]},
-                                  f"a worker did not come back (hang outside the interpreter?) "
-                                  f"while parsing {data[:48].hex()}",
-                                  {"family": j[0], "data": data.hex(), "thorough": thorough})
-                except Exception as e:  # noqa: BLE001  worker died
-                    data = open(j[3], "rb").read() if os.path.exists(j[3]) else b""
-                    ctx.violation({"fail": "worker-died", "family": j[0]},
-                                  f"worker died ({type(e).__name__}: {e}) while parsing "
-                                  f"{data[:48].hex()}",
-                                  {"family": j[0], "data": data.hex(), "thorough": thorough})
+            hung = None
+            while pending and hung is None:
+                time.sleep(0.2)
+                now = time.time()
+                for i in list(pending):
+                    a = pending[i]
+                    if a.ready():
+                        del pending[i]
+                        try:
+                            results.append(a.get())
+                        except Exception as e:  # noqa: BLE001  worker died / harness error
+                            j = jobs[i]
+                            data = open(j[3], "rb").read() if os.path.exists(j[3]) else b""
+                            ctx.violation({"fail": "worker-died", "family": j[0]},
+                                          f"worker died ({type(e).__name__}: {e}) while parsing "
+                                          f"{data[:48].hex()}",
+                                          {"family": j[0], "data": data.hex(),
+                                           "thorough": thorough})
+                        continue
+                    pf = jobs[i][3]
+                    if os.path.exists(pf) and now - os.path.getmtime(pf) > CASE_WALL_LIMIT:
+                        hung = i
+                        break
+                if now - t0 > deadline:
+                    hung = next(iter(pending), None)
+            if hung is not None:
+                j = jobs[hung]
+                data = open(j[3], "rb").read() if os.path.exists(j[3]) else b""
+                ctx.violation({"fail": "worker-hang", "family": j[0]},
+                              f"a worker was stuck for more than {CASE_WALL_LIMIT:.0f}s on one "
+                              f"input (not interruptible by the in-process watchdog): "
+                              f"{data[:48].hex()} ({len(data)} bytes)",
+                              {"family": j[0], "data": data.hex(), "thorough": thorough})
+                ctx.coverage["aborted_after_hang"] = True
+                p.terminate()
     finally:
         for f in os.listdir(tmp):
             os.unlink(os.path.join(tmp, f))
@@ -281,8 +305,8 @@ def run(ctx) -> None:
         distinct_nontrivial=merged["nontrivial"],
         outcome_histogram=hist,
         worst_case_ms=max((e.get("worst_ms", 0) for e in merged["extras"]), default=0),
-        exhaustive=True,
-        samples=merged["samples"],
+        exhaustive=not ctx.coverage.get("aborted_after_hang", False),
+        samples=merged["samples"] or [{"note": "aborted"}],
         rule=(
             "E1: every byte string of length<=2 (all 256 values) and of length 3.."
             f"{4 if ctx.quick else 5} over a 17-byte structural alphabet; E2: for "
@@ -293,7 +317,7 @@ def run(ctx) -> None:
             "10^5 continuation bytes, 10^4 empty frames, options rows everywhere, 2000 frames); "
             "entry points: flat+grouped of both integrations from BytesIO and a non-seekable raw "
             "source (+ parse-to-graph and Graph.parse in thorough); per-case 5 s interval-timer "
-            "watchdog, peak-RSS growth < 64 MiB, parent-side worker watchdog; non-trivial = at "
+            "watchdog, peak-RSS growth < 24 MiB after warm-up, parent-side worker watchdog; non-trivial = at "
             "least one entry point raised"
         ),
     )
